@@ -16,7 +16,7 @@ open Model Model.Optim OptimProofs
 
 /-! ## 1. merit function -/
 
-/-- `Operand.fun` is weight × (value − target) -/
+/-- `Operand.fun` is weight × (value − target) (restates the definition of `Operand.fn`: `rfl`) -/
 theorem operand_fun_def {σ : Type} (op : Operand σ ℝ) (s : σ) :
     op.fn s = op.weight * (op.value s - op.target) := rfl
 
@@ -118,7 +118,8 @@ example : InRange .radius
 
 /-! ## 3. bounds are in the units of the value -/
 
-/-- spec: bounds are scaled exactly when the value is -/
+/-- spec: bounds are scaled exactly when the value is (restates the definition of `boundsSpec`: `rfl`;
+what the spec bounds *mean* is `boundsSpec_iff_raw` in §8) -/
 theorem bounds_same_units (v : Variable ℝ) :
     v.boundsSpec = if v.scaling then (v.minVal.map v.kind.scale, v.maxVal.map v.kind.scale)
                    else (v.minVal, v.maxVal) := rfl
@@ -524,14 +525,18 @@ theorem undoCode_eq_undoSpec (pb : Problem σ α) (hupd : ∀ s, pb.upd s = s) (
 /-! ### assumptions about scipy (not provable here: *partial*; checked numerically by the harness) -/
 
 /-- **not_worse_partial**: *if* the optimiser evaluates the start vector and returns a pair no worse than
-every logged evaluation, the returned objective is not worse than the start's -/
+every logged evaluation, the returned objective is not worse than the start's.  (Pure logic: `log`,
+`vals`, `f0`, `fstar` are free and not related to the model; the statement about `optimizeSpec` is
+`not_worse_of_minimising_oracle` in §8.) -/
 theorem not_worse_partial (log : List (List α × α)) (x0 : List α) (f0 fstar : ℝ) (vals : List α × α → ℝ)
     (hx0 : ∃ e ∈ log, e.1 = x0 ∧ vals e = f0) (hbest : ∀ e ∈ log, fstar ≤ vals e) : fstar ≤ f0 := by
   obtain ⟨e, he, _, hv⟩ := hx0
   exact hv ▸ hbest e he
 
 /-- **within_bounds_partial**: *if* the returned vector respects the bounds handed to scipy, then with the
-spec bounds (same units as the value) every bounded variable reads back within its limits -/
+spec bounds (same units as the value) every bounded variable reads back within its limits.  (`P` is an
+arbitrary predicate: this is `readsBack` rewritten; the statement about `optimizeSpec`, `boundsSpec`
+and the user's `min_val … max_val` is `within_bounds_of_bounded_oracle` in §8.) -/
 theorem within_bounds_partial (pb : Problem σ α) (H : LensHyp pb view I) (s : σ) (hs : I s)
     (xs : List α) (hx : xs.length = pb.vars.length) (P : List α → Prop) (hP : P xs) :
     P (values pb (applyX pb xs s)) := by
@@ -540,7 +545,12 @@ theorem within_bounds_partial (pb : Problem σ α) (H : LensHyp pb view I) (s : 
 end Protocol
 
 
-/-! ## 6. the lens-level hypotheses are satisfiable: every single variable on a pickup-free lens -/
+/-! ## 6. the lens-level hypotheses are satisfiable: every single variable on a pickup-free lens
+
+(Several variables at once – any number of radius / conic / thickness / tilt / decentre /
+asphere-coefficient variables with distinct targets – are treated in `Proofs/OptimMulti.lean`,
+`C14Multi.multi_variable_hyp`, which imports this file.  Lenses *with* pickups or solves are not
+covered by any theorem: there `LensHyp` is only checked numerically by the harness.) -/
 
 /-- no pickups, no solves: `Optic.update` has nothing to do -/
 def NoPick (L : Lens ℝ) : Prop := L.presc.pickups = [] ∧ L.presc.solves = []
@@ -831,4 +841,216 @@ theorem undoCode_violates :
       = (1, 1) := by
   simp [undoCode, undoSpec, optimizeSpec, runOracle, replayOracle, funEval, applyX, setAll, toyPickup, values]
 
+/-! ## 8. review additions: the hypotheses of §4–§6 are met by one concrete run, and the two
+"scipy" clauses are tied to the model
+
+`not_worse_partial` / `within_bounds_partial` above do not mention the model at all (their
+conclusions are instances of their hypotheses).  The theorems below state the same two clauses about
+`optimizeSpec` itself, for every oracle that (a) evaluates the start vector, (b) returns one of its
+logged evaluations and (c) returns the best of them – what a descent method with a final
+`min(log)` does; that scipy's front ends satisfy (a)–(c) is still an assumption (it is false for
+some, findings F-C14-3 / F-C14-4). -/
+
+/-- **not_worse** (spec variant, every oracle satisfying (a)–(c)): the merit function on the lens the
+optimiser leaves is not larger than on the lens it started from. -/
+theorem not_worse_of_minimising_oracle {σ ω : Type} {pb : Problem σ ℝ} {view : σ → ω} {I : σ → Prop}
+    (H : LensHyp pb view I) (o : Oracle ℝ) (s0 : σ) (hs : I s0) (hset : Settled pb view s0)
+    (ho : OSized o pb.vars.length)
+    (hstart : ∃ e ∈ (runOracle pb o (values pb s0) o.fuel s0 []).2, e.1 = values pb s0)
+    (hmem : (optimizeSpec pb o { lens := s0 }).2 ∈ (runOracle pb o (values pb s0) o.fuel s0 []).2)
+    (hbest : ∀ e ∈ (runOracle pb o (values pb s0) o.fuel s0 []).2,
+      (optimizeSpec pb o { lens := s0 }).2.2 ≤ e.2) :
+    sumSquared pb.ops (optimizeSpec pb o { lens := s0 }).1.lens ≤ sumSquared pb.ops s0 := by
+  rw [← fun_is_merit, ← fun_is_merit]
+  obtain ⟨pts, hp, _, h2⟩ := runOracle_sized pb o (values pb s0) o.fuel _ s0 [] ho
+  have hl : (runOracle pb o (values pb s0) o.fuel s0 []).2 = logOf pb s0 pts := by simpa using h2
+  obtain ⟨e, he, hx0⟩ := hstart
+  have h1 : funVal pb (optimizeSpec pb o { lens := s0 }).1.lens = (optimizeSpec pb o { lens := s0 }).2.2 :=
+    (optimize_leaves_solution H o { lens := s0 } hs ho).2.2.2 hmem
+  have h3 : e.2 = funVal pb s0 := by
+    have := log_values_determined H s0 hs pts hp e (hl ▸ he)
+    rw [this, hx0]
+    exact funVal_congr H _ _ hset
+  rw [h1, ← h3]
+  exact hbest e he
+
+/-- `x` lies within the (optional) limits `b` -/
+def InBounds (b : Option ℝ × Option ℝ) (x : ℝ) : Prop :=
+  (∀ lo, b.1 = some lo → lo ≤ x) ∧ (∀ hi, b.2 = some hi → x ≤ hi)
+
+/-- every `scale` is strictly increasing -/
+theorem scale_le_iff (K : VKind) (a b : ℝ) : K.scale a ≤ K.scale b ↔ a ≤ b := by
+  cases K <;> simp only [VKind.scale, Num.ofNat]
+  case asphere i =>
+    have h : (0:ℝ) < pow10 (4 + 2 * i) := by
+      unfold pow10 Num.ofNat
+      num_real
+      positivity
+    revert h
+    generalize (pow10 (4 + 2 * i) : ℝ) = p
+    intro h
+    num_real
+    exact mul_le_mul_iff_of_pos_right h
+  all_goals (num_real; constructor <;> intro h <;> norm_num at h ⊢ <;> linarith)
+
+/-- **bounds in the units of the value mean the user's limits**: the value read through the handle
+lies within `boundsSpec` exactly when the lens quantity lies within `min_val … max_val` – scaled or
+not (for the tree's `boundsCode` this fails for unscaled variables, `boundsCode_violates_same_units`). -/
+theorem boundsSpec_iff_raw (v : Variable ℝ) (L : Lens ℝ) :
+    InBounds v.boundsSpec (v.value L) ↔ InBounds (v.minVal, v.maxVal) (v.kind.rawGet L v.surf) := by
+  unfold Variable.boundsSpec Variable.value InBounds
+  cases v.scaling
+  · simp
+  · simp only [if_true, Option.map_eq_some_iff]
+    constructor
+    · rintro ⟨h1, h2⟩
+      exact ⟨fun lo hlo => (scale_le_iff _ _ _).1 (h1 _ ⟨lo, hlo, rfl⟩),
+             fun hi hhi => (scale_le_iff _ _ _).1 (h2 _ ⟨hi, hhi, rfl⟩)⟩
+    · rintro ⟨h1, h2⟩
+      refine ⟨?_, ?_⟩
+      · rintro _ ⟨lo, hlo, rfl⟩; exact (scale_le_iff _ _ _).2 (h1 lo hlo)
+      · rintro _ ⟨hi, hhi, rfl⟩; exact (scale_le_iff _ _ _).2 (h2 hi hhi)
+
+/-- **within_bounds** (spec variant): if the vector the oracle returns respects the bounds it was
+handed (`boundsSpec`), then on the lens `optimizeSpec` leaves every bounded variable's lens quantity
+lies within the user's `min_val … max_val`. -/
+theorem within_bounds_of_bounded_oracle {ω : Type} {view : Lens ℝ → ω} {I : Lens ℝ → Prop}
+    (vars : List (Variable ℝ)) (ops : List (Operand (Lens ℝ) ℝ))
+    (H : LensHyp (lensProblem vars ops) view I) (o : Oracle ℝ) (L : Lens ℝ) (hs : I L)
+    (ho : OSized o vars.length)
+    (hb : List.Forall₂ (fun v x => InBounds v.boundsSpec x) vars
+      (optimizeSpec (lensProblem vars ops) o { lens := L }).2.1) :
+    ∀ v ∈ vars, InBounds (v.minVal, v.maxVal)
+      (v.kind.rawGet (optimizeSpec (lensProblem vars ops) o { lens := L }).1.lens v.surf) := by
+  have hv := (optimize_leaves_solution H o { lens := L } hs (by simpa [lensProblem] using ho)).1
+  rw [← hv] at hb
+  generalize (optimizeSpec (lensProblem vars ops) o { lens := L }).1.lens = M at hb
+  have : values (lensProblem vars ops) M = vars.map fun v => v.value M := by
+    simp [values, lensProblem, Variable.toHandle]
+  rw [this, List.forall₂_map_right_iff] at hb
+  intro v hv
+  have : ∀ {l : List (Variable ℝ)}, List.Forall₂ (fun v w => InBounds v.boundsSpec (w.value M)) l l →
+      ∀ u ∈ l, InBounds u.boundsSpec (u.value M) := by
+    intro l hl
+    induction l with
+    | nil => intro u hu; simp at hu
+    | cons a l ih =>
+      intro u hu
+      cases hl with
+      | cons h t =>
+        rcases List.mem_cons.1 hu with rfl | hu
+        · exact h
+        · exact ih t u hu
+  exact (boundsSpec_iff_raw v M).1 (this hb v hv)
+
+/-! ### one concrete run meeting every hypothesis -/
+
+/-- object plane and one spherical surface (R = 50) -/
+noncomputable def demoLens : Lens ℝ :=
+  { presc := { surfs := [⟨.object, .plane, 0, 0, 0, 0, 0, 0, 0, [], 0, 0, false, false⟩,
+                         ⟨.standard, .standard, 0, 0, 0, 0, 0, 50, 0, [], 0, 1, true, false⟩],
+               lastThickness := 0, apValue := 1, maxYField := 0 } }
+
+/-- scaled radius variable on surface 1, limits 10 … 100 -/
+noncomputable def demoVar : Variable ℝ := { kind := .radius, surf := 1, minVal := some 10, maxVal := some 100 }
+
+theorem demo_inv : VarInv demoVar demoLens := by
+  refine ⟨⟨rfl, rfl⟩, ?_⟩
+  simp [InRange, demoVar, demoLens]
+
+/-- the start lens is consistent (`hfix` of `single_variable_settled` is satisfiable) -/
+theorem demo_fix : demoVar.update demoLens (demoVar.value demoLens) = demoLens := by
+  unfold Variable.update Variable.value
+  simp only [demoVar, if_true, invScale_scale]
+  simp [VKind.rawSet, VKind.rawGet, setRadius, modifyAt, demoLens]
+
+/-- a recorded run: `_fun` at the start value −0.5 (R = 50), then at −0.4 (R = 60); returned: the second -/
+noncomputable def demoOracle : Oracle ℝ := replayOracle [[-1/2], [-2/5]] ([-2/5], 0)
+
+theorem demo_sized : OSized demoOracle 1 := by
+  constructor
+  · intro x0 log x h
+    simp only [demoOracle, replayOracle] at h
+    rcases hl : log.length with _ | _ | n <;> simp [hl] at h <;> subst h <;> rfl
+  · intro x0 log; rfl
+
+/-- every hypothesis of `optimize_leaves_solution`, `undo_restores`, `optimise_undo_sequences` is met
+by this run (any operands): after optimise + undo the lens is the start lens, literally -/
+example (ops : List (Operand (Lens ℝ) ℝ)) :
+    (undoSpec (lensProblem [demoVar] ops)
+      (optimizeSpec (lensProblem [demoVar] ops) demoOracle { lens := demoLens }).1).lens = demoLens :=
+  (undo_restores (single_variable_hyp demoVar (by simp [demoVar]) ops) demoLens demo_inv
+    (single_variable_settled demoVar ops demoLens demo_inv demo_fix) demoOracle
+    (by simpa [lensProblem] using demo_sized)).1
+
+/-- … and after optimise the variable reads the returned −0.4, i.e. the radius is 60 -/
+example (ops : List (Operand (Lens ℝ) ℝ)) :
+    values (lensProblem [demoVar] ops)
+      (optimizeSpec (lensProblem [demoVar] ops) demoOracle { lens := demoLens }).1.lens = [-2/5] :=
+  single_variable_leaves_solution demoVar (by simp [demoVar]) ops demoOracle demoLens demo_inv demo_sized
+
+/-- … and the radius it leaves (60) lies within the user's limits 10 … 100: the hypotheses of
+`within_bounds_of_bounded_oracle` are met (the returned −0.4 lies within the scaled bounds −0.9 … 0) -/
+example (ops : List (Operand (Lens ℝ) ℝ)) :
+    InBounds (some 10, some 100)
+      (VKind.rawGet (optimizeSpec (lensProblem [demoVar] ops) demoOracle { lens := demoLens }).1.lens 1 .radius) := by
+  have hb : List.Forall₂ (fun (v : Variable ℝ) x => InBounds v.boundsSpec x) [demoVar]
+      (optimizeSpec (lensProblem [demoVar] ops) demoOracle { lens := demoLens }).2.1 := by
+    show List.Forall₂ _ [demoVar] [-2/5]
+    refine List.Forall₂.cons ?_ List.Forall₂.nil
+    simp only [InBounds, Variable.boundsSpec, demoVar, if_true, Option.map_some, Option.some.injEq,
+      VKind.scale, Num.ofNat]
+    num_real
+    constructor <;> intro b hb <;> rw [← hb] <;> norm_num
+  exact within_bounds_of_bounded_oracle [demoVar] ops (single_variable_hyp demoVar (by simp [demoVar]) ops)
+    demoOracle demoLens demo_inv demo_sized hb demoVar (by simp)
+
+/-! ### … including `not_worse_of_minimising_oracle`, with an operand that reads the lens -/
+
+noncomputable def demoOps : List (Operand (Lens ℝ) ℝ) := [⟨fun L => VKind.rawGet L 1 .radius, 60, 1⟩]
+
+theorem demo_funVal (L : Lens ℝ) : funVal (lensProblem [demoVar] demoOps) L = (VKind.rawGet L 1 .radius - 60) ^ 2 := by
+  rw [fun_is_merit, merit_def]
+  simp [lensProblem, demoOps]
+
+theorem demo_apply (x : ℝ) (L : Lens ℝ) (h : VarInv demoVar L) :
+    VKind.rawGet (applyX (lensProblem [demoVar] demoOps) [x] L) 1 .radius = (x + 1) * 100 ∧
+    VarInv demoVar (applyX (lensProblem [demoVar] demoOps) [x] L) := by
+  have h1 := varInv_update demoVar L x h
+  rw [applyX_single, lensUpdate_noPick _ h1.1]
+  refine ⟨?_, h1⟩
+  have := raw_roundtrip .radius L 1 ((x + 1) * 100) h.2
+  have e : (Num.ofRat 100 1 : ℝ) = 100 := by num_real; norm_num
+  simpa [Variable.update, demoVar, VKind.invScale, Num.ofNat, e] using this
+
+theorem demo_log :
+    (runOracle (lensProblem [demoVar] demoOps) demoOracle (values (lensProblem [demoVar] demoOps) demoLens)
+      demoOracle.fuel demoLens []).2 = [([-1/2], 100), ([-2/5], 0)] := by
+  obtain ⟨a1, i1⟩ := demo_apply (-1/2) demoLens demo_inv
+  obtain ⟨a2, _⟩ := demo_apply (-2/5) _ i1
+  simp only [demoOracle, replayOracle, List.length_cons, List.length_nil, runOracle, funEval,
+    List.getElem?_cons_zero, List.nil_append, List.getElem?_cons_succ, List.cons_append, demo_funVal, a1, a2]
+  norm_num [runOracle]
+
+theorem demo_x0 : values (lensProblem [demoVar] demoOps) demoLens = [-1/2] := by
+  simp only [values, lensProblem, Variable.toHandle, Variable.value, demoVar, VKind.rawGet, demoLens,
+    VKind.scale, Num.ofNat, List.map_cons, List.map_nil, List.getD_cons_succ, List.getD_cons_zero, if_true]
+  num_real
+  norm_num
+
+/-- every hypothesis of `not_worse_of_minimising_oracle` is met by the recorded run: the merit
+`(R − 60)²` is 100 at the start and 0 on the lens the optimiser leaves -/
+example : sumSquared demoOps (optimizeSpec (lensProblem [demoVar] demoOps) demoOracle { lens := demoLens }).1.lens
+    ≤ sumSquared demoOps demoLens := by
+  have hl := demo_log
+  have hr : (optimizeSpec (lensProblem [demoVar] demoOps) demoOracle { lens := demoLens }).2 = ([-2/5], 0) := rfl
+  refine not_worse_of_minimising_oracle (single_variable_hyp demoVar (by simp [demoVar]) demoOps) demoOracle
+    demoLens demo_inv (single_variable_settled demoVar demoOps demoLens demo_inv demo_fix)
+    (by simpa [lensProblem] using demo_sized) ?_ ?_ ?_
+  · rw [hl, demo_x0]; exact ⟨([-1/2], 100), by simp, rfl⟩
+  · rw [hl, hr]; simp
+  · rw [hl, hr]
+    intro e he
+    simp only [List.mem_cons, List.not_mem_nil, or_false] at he
+    rcases he with rfl | rfl <;> norm_num
 end C14
